@@ -225,7 +225,20 @@ def check_case(case):
         return res
     lay = sexpr.Layout(case["layout"], case.get("case_mode", 0)) if case.get("layout") else None
     text = sexpr.render(P.problem_tree(dom, pr, dname), lay)
+    consts_before = None
+    if case.get("earlier"):
+        # another (valid) problem parsed over the same Domain object first; it declares an object named "ghost" of
+        # the first argument's type of every fact: what one problem declares is unknown to the next, and a
+        # domain is not changed by the problems read against it
+        base = case["problem"]
+        ghost_t = (dom["types"][0][0] if dom.get("typed", True) and dom["types"] else "object")
+        earlier = dict(base, name="earlier", objects=[list(o) for o in base["objects"]] + [["ghost", ghost_t]], object_decl=None)
+        consts_before = sorted(domain.constants)
+        lib_call(parse_problem_text, sexpr.render(P.problem_tree(dom, earlier, dom["name"])), domain)
     okp, prob = lib_call(parse_problem_text, text, domain)
+    if consts_before is not None and sorted(domain.constants) != consts_before:
+        res.bad("C05/domain-constants-changed-by-parsing-problems", {"before": consts_before, "after": sorted(domain.constants)})
+        return res
     T = pddl.Types(dom["types"] if dom.get("typed", True) else [])
     consts = {n for n, _ in dom["constants"]}
     objt = dict((n, t) for n, t in pr["objects"])
@@ -290,6 +303,8 @@ def gen(ch, tier):
             case["corrupt"] = c
         except pddl.Invalid:
             pass
+    if ch.flag(0.4):
+        case["earlier"] = True
     return case
 
 
